@@ -256,6 +256,11 @@ class Builder:
             else:
                 raise RxUnsupported('anchor %r' % (av,))
         elif op == C.GROUPREF:
+            if av not in self.groupvals and av in getattr(self, 'relaxed', {}):
+                x, y = self.seq(self.relaxed[av], False)
+                n.edge(a, EPS, x)
+                n.edge(y, EPS, b)
+                return a, b
             if av not in self.groupvals:
                 raise RxUnsupported('backreference to a group that is not a single character')
             n.edge(a, frozenset([self.groupvals[av]]), b)
@@ -271,20 +276,27 @@ class Builder:
         return a, b
 
 
-def build_nfas(pattern, flags=0, alphabet=ALPHABET_CORE):
-    """One NFA per valuation of single-character back-referenced groups."""
+def build_nfas(pattern, flags=0, alphabet=ALPHABET_CORE, relax_backrefs=False):
+    """One NFA per valuation of single-character back-referenced groups. With relax_backrefs, a
+    back-reference to any other group is replaced by that group's own pattern - a superset of the
+    language, sound for showing that the pattern's language is INCLUDED in another."""
     tree = parse(pattern, flags)
     refs = sorted(_groupref_targets(tree))
     choices = [{}]
+    relaxed = {}
     for g in refs:
         sub = _find_group(tree, g)
         cs = _single_char_set(sub, frozenset(alphabet)) if sub is not None else None
         if cs is None:
+            if relax_backrefs and sub is not None:
+                relaxed[g] = sub
+                continue
             raise RxUnsupported('backreference \\%d to a group that is not one character of a finite set' % g)
         choices = [{**c, g: ch} for c in choices for ch in sorted(cs)]
     out = []
     for gv in choices:
         b = Builder(alphabet, flags, gv)
+        b.relaxed = relaxed
         s, e = b.seq(tree, first=True)
         b.nfa.start, b.nfa.accept = s, e
         out.append(b.nfa)
@@ -296,12 +308,12 @@ class Lang:
     mode 'full' : the whole string is matched (fullmatch)
     mode 'match': some prefix is matched (pattern.match)"""
 
-    def __init__(self, pattern, flags=0, mode='match', alphabet=ALPHABET_CORE, name=None):
+    def __init__(self, pattern, flags=0, mode='match', alphabet=ALPHABET_CORE, name=None, relax_backrefs=False):
         self.pattern = pattern
         self.mode = mode
         self.alphabet = frozenset(alphabet)
         self.name = name or pattern
-        self.nfas = build_nfas(pattern, flags, self.alphabet)
+        self.nfas = build_nfas(pattern, flags, self.alphabet, relax_backrefs=relax_backrefs)
 
     # run-state: frozenset of (nfa_index, state, endmode); state -1 = "matched, in suffix loop"
     def initial(self):
